@@ -176,3 +176,54 @@ def pairmap_setitem(interp, c, key, v):
     a, b = key.items[0].z, key.items[1].z
     c.has = z3.Store(c.has, a, z3.Store(c.has[a], b, True))
     c.val = z3.Store(c.val, a, z3.Store(c.val[a], b, v.z))
+
+
+# ---- a local dict with int keys and int values that a loop updates (histograms: inter_event_time_distribution, C17) ------------------
+
+AIB = z3.ArraySort(Int, Bool)
+AII = z3.ArraySort(Int, Int)
+
+
+class VIntDict(V):
+    """has[k], val[k]; with ctx.hist_sums = (Mass, WSum) every store emits the defining equations of
+       Mass(d) = sum of the values,  WSum(d) = sum over the keys of key * value   for the updated dict"""
+    kind = 'intdict'
+
+    def __init__(self, has=None, val=None):
+        self.has = has if has is not None else z3.K(Int, z3.BoolVal(False))
+        self.val = val if val is not None else z3.K(Int, IntV(0))
+
+    def havoc(self, name):
+        return VIntDict(fresh(name + '.has', AIB), fresh(name + '.val', AII))
+
+
+def intdict_contains(interp, d, x):
+    if x.kind != 'int':
+        return False
+    return d.has[x.z]
+
+
+def intdict_getitem(interp, d, key):
+    if key.kind != 'int':
+        raise PyRaise('KeyError', 'histogram key')
+    if interp.ctx.branch(z3.Not(d.has[key.z]), 'KeyError(histogram)'):
+        raise PyRaise('KeyError', 'histogram at %s' % interp.ctx.where)
+    return VInt(d.val[key.z])
+
+
+def intdict_setitem(interp, d, key, v):
+    if key.kind != 'int' or v.kind != 'int':
+        raise Undecided('histogram written with %s -> %s' % (key.kind, v.kind))
+    ctx = interp.ctx
+    old = z3.If(d.has[key.z], d.val[key.z], IntV(0))
+    has2, val2 = z3.Store(d.has, key.z, True), z3.Store(d.val, key.z, v.z)
+    sums = getattr(ctx, 'hist_sums', None)
+    if sums is not None:
+        Mass, WSum = sums
+        inc = v.z - old
+        ctx.assume(Mass(has2, val2) == Mass(d.has, d.val) + inc)
+        if not ctx.feasible(inc != 1):
+            ctx.assume(WSum(has2, val2) == WSum(d.has, d.val) + key.z)        # (the increment is 1 on this path: linear instance)
+        else:
+            ctx.assume(WSum(has2, val2) == WSum(d.has, d.val) + key.z * inc)
+    d.has, d.val = has2, val2
